@@ -10,6 +10,7 @@ package gi
 //@   property C07 C17
 //@   option eval-once
 //@   option forward-body-exits
+//@   must-defer Unlock
 //@   at-eval held-in-body: $held == 1
 //@   ensures released: $held == 0
 //@   ensures body: forall k :: (0 <= k && k < $n) ==> ($eslot[k] == k + 1 && $escope[k] == s)
